@@ -99,7 +99,7 @@ impl Prop for P {
         (0..MATRIX.len(), prop_oneof![Just(1u16), Just(2), Just(3), Just(5), Just(12)])
             .prop_flat_map(move |(ci, retention)| {
                 let (fmt, ty) = MATRIX[ci];
-                let mix = OpMix { raw_ops: fmt.is_raw(), rollback_ops: true, plain_writes: false, reimport: true, reset: false };
+                let mix = OpMix { raw_ops: fmt.is_raw(), rollback_ops: true, plain_writes: false, reimport: true, reset: true };
                 prop::collection::vec(vop_strategy(mix), 0..=n)
                     .prop_map(move |ops| Case { cfg: VecCfg { fmt, ty, retention }, ops })
             })
